@@ -167,7 +167,11 @@ func (r *Rng) limbPattern() *big.Int {
 // it was drawn from.  m is p or n.  The class mix is ~50% special.
 func (r *Rng) Value(m *big.Int) (*big.Int, string) {
 	c := r.Intn(20)
-	small := func() *big.Int { return big.NewInt(int64(r.Intn(1 << uint(1+r.Intn(33))))) }
+	// (64-bit arithmetic throughout: the generators must produce the same stream on 32-bit builds)
+	small := func() *big.Int {
+		k := uint(1 + r.Intn(33))
+		return new(big.Int).SetUint64(r.U64() % (uint64(1) << k))
+	}
 	switch c {
 	case 0:
 		return new(big.Int), "zero"
